@@ -93,6 +93,8 @@ def cases(tier, seed):
         if k % 2:
             fam["variableFonts"].reverse()
         sources.append(("ds", {"kind": "family", "family": fam}, f"gen-faminfo-{k}"))
+    # one options object (ftConfig with a GPOS compaction level) owned by the caller and handed to every call
+    sources.append(("ds", {"kind": "family", "family": gen.class_kerning_family(rng)}, "gen-ftconfig-0"))
     fx_u = ["TestFont.ufo", "ColorTest.ufo", "TestMathFont-Regular.ufo"] if tier == "quick" else \
         [os.path.basename(p) for p in sorted(glob.glob(os.path.join(c07.DATA, "*.ufo")))]
     for u in fx_u:
@@ -107,6 +109,10 @@ def cases(tier, seed):
         hists = UFO_HISTORIES if kind == "ufo" else DS_HISTORIES
         if sid.startswith("gen-layout") or sid.startswith("gen-propagate"):
             hists = [[("compileTTF", {})]]
+        elif sid.startswith("gen-ftconfig"):
+            cfgkw = {"ftConfig": "@shared"}
+            hists = [[("compileVariableTTF", cfgkw), ("compileVariableTTF", cfgkw)], [("compileVariableTTF", cfgkw)],
+                     [("compileVariableCFF2", cfgkw), ("compileVariableTTF", cfgkw)], [("compileInterpolatableTTFsFromDS", cfgkw), ("compileVariableTTF", cfgkw)]]
         elif sid.startswith("gen-faminfo"):
             hists = [[("compileVariableTTFs", {}), ("compileVariableTTFs", {})], [("compileVariableTTFs", {}), ("compileInterpolatableTTFsFromDS", {})],
                      [("compileInterpolatableTTFsFromDS", {})], [("compileVariableCFF2s", {}), ("compileVariableTTFs", {})]]
@@ -117,6 +123,8 @@ def cases(tier, seed):
             # every history is run in >= 3 environments (quick) / all (thorough)
             if sid.startswith("gen-layout"):
                 chosen = [(hs, "ufoLib2", "memory") for hs in ["0", "1", "2", "3", "5", "17", "101", "4242"]] + [(seeds[0], "defcon", "disk")]
+            elif sid.startswith("gen-ftconfig"):
+                chosen = [(seeds[0], "ufoLib2", "memory"), (seeds[1], "defcon", "memory")]
             elif sid.startswith("gen-faminfo"):
                 chosen = [(seeds[0], "ufoLib2", "memory"), (seeds[1], "defcon", "memory"), (seeds[0], "ufoLib2", "disk")]
             elif sid.startswith("gen-propagate"):
@@ -127,7 +135,8 @@ def cases(tier, seed):
                 chosen = [e for e in chosen if e[2] == "memory"] or chosen[:1]
             for hs, lib, via in chosen:
                 out.append({"cid": f"c08-{seed}-{k}", "group": sid.replace("@lib", "@" + lib), "source": src, "lib": lib, "via": via, "hashseed": hs,
-                            "history": [{"fn": fn, "kwargs": kw} for fn, kw in h], "stage_snapshots": False})
+                            "history": [{"fn": fn, "kwargs": kw} for fn, kw in h], "stage_snapshots": False,
+                            **({"sharedFtConfig": {"fontTools.otlLib.optimize.gpos:COMPRESSION_LEVEL": 9}} if sid.startswith("gen-ftconfig") else {})})
                 k += 1
     return out
 
